@@ -31,6 +31,19 @@ pub struct TrainSpec {
     pub mass_per_brake: f64,
     pub axle_count: u32,
     pub curve_coeff: (f64, f64, f64),
+    #[serde(default = "freight")]
+    pub train_type: TrainType,
+}
+fn freight() -> TrainType {
+    TrainType::Freight
+}
+/// train type as a function of the case's own random bits (no extra draw: older replay files keep their meaning)
+pub fn type_from_bits(bits: u64) -> TrainType {
+    match bits % 20 {
+        0..=10 => TrainType::Freight,
+        11..=16 => TrainType::Intermodal,
+        _ => TrainType::Passenger,
+    }
 }
 
 #[derive(Serialize, Deserialize, Clone, Debug)]
@@ -50,14 +63,14 @@ pub fn train_params(t: &TrainSpec) -> TrainParams {
         towed_mass_static: t.towed_mass_static * uc::KG,
         mass_per_brake: t.mass_per_brake * uc::KG,
         axle_count: t.axle_count,
-        train_type: TrainType::Freight,
+        train_type: t.train_type,
         curve_coeff_0: t.curve_coeff.0 * uc::R,
         curve_coeff_1: t.curve_coeff.1 * uc::R,
         curve_coeff_2: t.curve_coeff.2 * uc::R,
     }
 }
 pub fn train_ref(t: &TrainSpec) -> TrainRefParams {
-    TrainRefParams { length: t.length, speed_max: t.speed_max, towed_mass_static: t.towed_mass_static, mass_per_brake: t.mass_per_brake, axle_count: t.axle_count, train_type: TrainType::Freight }
+    TrainRefParams { length: t.length, speed_max: t.speed_max, towed_mass_static: t.towed_mass_static, mass_per_brake: t.mass_per_brake, axle_count: t.axle_count, train_type: t.train_type }
 }
 
 pub fn generate(rng: &mut Rng, focus: &str, _thorough: bool) -> Case {
@@ -87,6 +100,7 @@ pub fn generate(rng: &mut Rng, focus: &str, _thorough: bool) -> Case {
         mass_per_brake: *rng.pick(&[5.0e4, 1.0e5, 1.3e5, 1.43e5]),
         axle_count: *rng.pick(&[100, 200, 400, 600]),
         curve_coeff: if rng.chance(0.3) { (0.0, 0.0, 0.0) } else { (0.056, 0.4387579, 0.01025485) },
+        train_type: TrainType::Freight,
     };
     // partition of the route into successive extensions, with empty extensions, reloads and refused extensions
     let mut ops = vec![];
@@ -118,7 +132,9 @@ pub fn generate(rng: &mut Rng, focus: &str, _thorough: bool) -> Case {
     if rng.chance(0.2) {
         ops.push(Op::Crash { fmt: *rng.pick(&[Fmt::Yaml, Fmt::Bin, Fmt::Json]), chan: Chan::Str });
     }
-    Case { links, train, route, ops, finish: rng.chance(0.5), hash_seed: rng.next() }
+    let mut c = Case { links, train, route, ops, finish: rng.chance(0.5), hash_seed: rng.next() };
+    c.train.train_type = type_from_bits(c.hash_seed >> 17);
+    c
 }
 
 fn speed_pts(p: &PathTpc) -> Vec<(f64, f64)> {
